@@ -1121,6 +1121,28 @@ func checkGeometryAccess(c *core.Ctx, pkg *packages.Package, dense, sparse []str
 				if asVectorViewTestComplete(pkg, fd, strings.HasPrefix(T, "Dense")) {
 					return true
 				}
+			case "Variables":
+				// sparse real matrices seed their stored entries; right for a view when entries outside the view are skipped
+				// and the rest is numbered through ij() (the exact form is decided by C01.R4)
+				if strings.HasPrefix(T, "Sparse") && s.Sel.Name == "values" {
+					usesIJ, skips := false, false
+					ast.Inspect(fd.Body, func(m ast.Node) bool {
+						switch x := m.(type) {
+						case *ast.CallExpr:
+							if calleeName(x) == "ij" {
+								usesIJ = true
+							}
+						case *ast.BranchStmt:
+							if x.Tok == token.CONTINUE {
+								skips = true
+							}
+						}
+						return true
+					})
+					if usesIJ && skips {
+						return true
+					}
+				}
 			case "ITERATOR", "ITERATOR_FROM":
 				// sparse matrices iterate their delegate vector; that is right for a view exactly when the wrapper skips the
 				// entries outside the view: the constructor calls skipOutside() on the result, and skipOutside compares
